@@ -40,6 +40,10 @@ class Ent:
     def val(self):
         return self.a
 
+    @property
+    def dbl(self):              # a computed attribute: not a constructor parameter, but a legitimate keyword of a term
+        return self.a * 2
+
     def __repr__(self):
         return f"{type(self).__name__}#{self.k}"
 
